@@ -491,6 +491,12 @@ fn thread_body(t: usize, d: Dispatch, mine: Vec<(usize, Value)>, sync: bool) {
                             Value::Number(n) => {
                                 sp.record(field, n.as_i64().unwrap_or(0));
                             }
+                            Value::Object(_) => {
+                                // fault: the recorded value's Debug impl panics (caught around the op); the span's
+                                // fields stay as they were and the span can be used as before
+                                fault("panic_in_recorded_value");
+                                sp.record(field, tracing::field::debug(jsites::PanicOnDebug));
+                            }
                             _ => {}
                         }
                         drop(sp);
@@ -598,7 +604,8 @@ impl Engine for JsonEngine {
                 55..=69 => json!({"t": t, "op": "enter", "slot": slot}),
                 70..=79 => json!({"t": t, "op": "exit"}),
                 80..=93 => {
-                    let rec = match rng.below(3) {
+                    let rec = match if !f19_guard && rng.chance(1, 10) { 9 } else { rng.below(3) } {
+                        9 => json!({"boom": true}),
                         0 => json!(hostile(&mut rng)),
                         1 => json!(rng.chance(1, 2)),
                         _ => json!(*rng.pick(&[0i64, -1, i64::MAX, i64::MIN, 17])),
